@@ -21,5 +21,50 @@ pub(crate) fn duration_to_instant(duration: Duration) -> Instant {
 /// A helper to get the current time as a `Duration` since the epoch.
 #[inline]
 pub(crate) fn now_duration() -> Duration {
+  #[cfg(excsn_fibre_verif)]
+  if let Some(d) = verif_clock::virtual_now() {
+    return d;
+  }
   instant_to_duration(Instant::now())
+}
+
+/// Verification hook (only with `--cfg excsn_fibre_verif`): a virtual clock for the cache.
+/// While frozen, `now_duration()` returns exactly the virtual time, so checks can place
+/// operations before, exactly at, or after a deadline without sleeping.
+#[cfg(excsn_fibre_verif)]
+pub mod verif_clock {
+  use std::sync::atomic::{AtomicBool, AtomicU64, Ordering};
+  use std::time::Duration;
+
+  static FROZEN: AtomicBool = AtomicBool::new(false);
+  static NOW_NANOS: AtomicU64 = AtomicU64::new(0);
+
+  pub(crate) fn virtual_now() -> Option<Duration> {
+    if FROZEN.load(Ordering::SeqCst) {
+      Some(Duration::from_nanos(NOW_NANOS.load(Ordering::SeqCst)))
+    } else {
+      None
+    }
+  }
+
+  /// Freezes the cache clock at `nanos` since the cache epoch.
+  pub fn freeze_at(nanos: u64) {
+    NOW_NANOS.store(nanos, Ordering::SeqCst);
+    FROZEN.store(true, Ordering::SeqCst);
+  }
+
+  /// Advances the frozen clock.
+  pub fn advance(nanos: u64) {
+    NOW_NANOS.fetch_add(nanos, Ordering::SeqCst);
+  }
+
+  /// Current virtual time in nanoseconds (meaningful while frozen).
+  pub fn now_nanos() -> u64 {
+    NOW_NANOS.load(Ordering::SeqCst)
+  }
+
+  /// Returns to the real clock.
+  pub fn unfreeze() {
+    FROZEN.store(false, Ordering::SeqCst);
+  }
 }
